@@ -59,13 +59,30 @@ def run(payload):
     stats = {"pairs": 0, "triples": 0, "anchors": 0, "shape_cases": 0, "max_rel_err": 0.0, "distinct": 0}
     if "replay" in payload:
         rep = payload["replay"]
-        payload = {"settings": [rep["settings"]], "triples": "all", "seed": rep.get("seed", 0)}
+        payload = {"settings": rep.get("history") or [rep["settings"]], "triples": "all", "seed": rep.get("seed", 0),
+                   "no_followups": bool(rep.get("history"))}
     rng = random.Random(payload["seed"])
 
-    def fail(kind, what, s, **kw):
-        failures.append({"kind": kind, "what": what, "settings": s, **kw})
+    done = []
 
-    for s in payload["settings"]:
+    def fail(kind, what, s, **kw):
+        failures.append({"kind": kind, "what": what, "settings": s, "history": list(done), **kw})
+
+    hist = []
+    for s0 in payload["settings"]:
+        hist.append(s0)
+        if payload.get("no_followups"):
+            continue
+        # histories: re-establish the settings with ONE field changed (a stale derived value or cache shows up here)
+        for fld, fac in (("fat_daily", 1.25), ("protein_daily", 0.75), ("kcals_daily", 1.5), ("population", 2.0), ("fat_daily", 0.8)):
+            s1 = dict(hist[-1])
+            s1[fld] = s1[fld] * fac
+            s1["_history"] = f"after {fld} x{fac}"
+            hist.append(s1)
+    stats["settings_histories"] = len(hist)
+    for s in hist:
+        done.append(s)
+        light = "_history" in s and not payload.get("no_followups")
         Food.conversions.set_nutrition_requirements(
             kcals_daily=s["kcals_daily"], fat_daily=s["fat_daily"], protein_daily=s["protein_daily"],
             include_fat=True, include_protein=True, population=s["population"])
@@ -85,8 +102,8 @@ def run(payload):
                         fail("spelling-missing", f"{nutrient} unit '{k2}' missing", s, unit=k2)
                     elif rel(table[k], table[k2]) > TOL:
                         fail("suffix-inconsistent", f"{nutrient} '{k}' vs '{k2}': {table[k]} vs {table[k2]}", s, unit=k, unit2=k2)
-            # pairs: round trip + shape + labels
-            for u in keys:
+            # pairs: round trip + shape + labels (a sample of source units for the history follow-ups)
+            for u in (rng.sample(keys, 3) if light else keys):
                 vals = [rng.uniform(0.5, 1e6) for _ in range(3)]
                 for v in bare:
                     stats["pairs"] += 1
@@ -117,10 +134,33 @@ def run(payload):
                     zl = [z.kcals_units, z.fat_units, z.protein_units][IDX[nutrient]]
                     if zl != u:
                         fail("label-roundtrip", f"{nutrient}: '{u}' -> '{v}' -> back is labelled '{zl}'", s, nutrient=nutrient, u=u, v=v)
+                    if x.is_list_monthly():
+                        # one month taken out of a series (by index and by get_month): converting before or after must agree,
+                        # in value and in the form (each month / per month / total) of the labels
+                        j = rng.randrange(len(x.kcals))
+                        for how in ("index", "get_month"):
+                            stats["shape_cases"] += 1
+                            try:
+                                with quiet():
+                                    xi = x[j] if how == "index" else x.get_month(j)
+                                    a1 = xi.in_units(*targets(nutrient, v))
+                                    yi = y[j] if how == "index" else y.get_month(j)
+                            except BaseException as e:
+                                fail("conversion-rejected", f"{nutrient}: month {j} of '{u}' ({how}) -> '{v}' raised {classify(e)}", s,
+                                     nutrient=nutrient, u=u, v=v)
+                                continue
+                            la = [a1.kcals_units, a1.fat_units, a1.protein_units]
+                            lb = [yi.kcals_units, yi.fat_units, yi.protein_units]
+                            src = [xi.kcals_units, xi.fat_units, xi.protein_units][IDX[nutrient]]
+                            if la != lb or la[IDX[nutrient]] != v + sfx_of(src) or a1.is_list_monthly() != xi.is_list_monthly():
+                                fail("form-not-preserved", f"{nutrient}: month {j} ({how}) of '{u}': convert-then-extract is labelled {lb}, "
+                                     f"extract-then-convert {la} (source form '{sfx_of(src)}')", s, nutrient=nutrient, u=u, v=v)
+                            elif rel(val(a1, nutrient), val(yi, nutrient)) > TOL:
+                                fail("extract-commutes", f"{nutrient}: month {j} ({how}) of '{u}' -> '{v}' value differs", s, nutrient=nutrient, u=u, v=v)
             # triples
             trip = list(itertools.product(keys, bare, bare))
-            if payload["triples"] == "sample":
-                trip = rng.sample(trip, min(len(trip), 150))
+            if payload["triples"] == "sample" or light:
+                trip = rng.sample(trip, min(len(trip), 20 if light else 150))
             for u, v, w in trip:
                 stats["triples"] += 1
                 vals = [rng.uniform(0.5, 1e6) for _ in range(3)]
